@@ -304,6 +304,10 @@ def run(ctx):
     rule_r2(facts, ctx, rb)
     rule_r3(facts, ctx, rb)
     rule_r4(facts, ctx, rb)
+    from .. import controls
+    controls.expect(ctx, "C07.R1", rule_r1, "BadRunner", "expect() on a block error")
+    controls.expect(ctx, "C07.R2", rule_r2, "BadRunner", "error never returned")
+    controls.expect(ctx, "C07.R3", rule_r3, "BadRunner", "work() cycle without a cancel poll")
     ctx.floor("C07.R2", 2, "error sources: work() in Graph::run and in the MTGraph thread closure (+ joined results)")
     ctx.floor("C07.R3", 2, "work() call sites on a cycle")
     ctx.floor("C07.R4", 1, "MTGraph::run join loop")
